@@ -487,6 +487,15 @@ class TokenFlow:
             return ('int', args[0])
         if fn in ('list', 'tuple') and len(args) == 1 and args[0][0] in ('rest', 'list') and not kwargs:
             return args[0]
+        if fn in ('reversed', 'sorted') and len(args) == 1 and not kwargs and args[0][0] == 'list' and not any(x[0] == 'star' for x in args[0][1]):
+            # a literal sequence iterated in another order (a table filled back to front so that the first listed entry wins)
+            if fn == 'reversed':
+                return ('list', list(reversed(args[0][1])))
+            if all(x[0] == 'const' for x in args[0][1]):
+                try:
+                    return ('list', sorted(args[0][1], key=lambda x: x[1]))
+                except TypeError:
+                    pass
         if fn == 'len' and len(args) == 1 and args[0][0] == 'list' and not any(x[0] == 'star' for x in args[0][1]):
             return ('const', len(args[0][1]))
         return ('call', fn or unparse(node.func), args, kwargs)
@@ -610,6 +619,21 @@ class TokenFlow:
                     if any(f[0] == 'eq' and not f[2] and f[1] == right[1] for f in path.head_facts):
                         return isinstance(op, ast.NotEq)
             return None
+        if (isinstance(test, ast.Call) and isinstance(test.func, ast.Attribute) and test.func.attr in ('endswith', 'startswith')
+                and len(test.args) == 1 and not test.keywords):
+            # tokens[0].endswith(':') on a path that already knows which mnemonics the first token can be
+            recv, arg = self.ev(test.func.value, path), self.ev(test.args[0], path)
+            if (recv == ('tok', 0) or self.is_head(recv)) and arg[0] == 'const' and isinstance(arg[1], str) and arg[1].upper() == arg[1].lower():     # no cased letters: lower-casing is immaterial
+                cands = self.head_candidates(path)
+                eq = [f[1] for f in path.head_facts if f[0] == 'eq' and f[2]]
+                if eq:
+                    cands = {eq[0]}
+                if cands and all(isinstance(c, str) for c in cands):
+                    hits = [getattr(c, test.func.attr)(arg[1]) for c in cands]
+                    if all(hits):
+                        return True
+                    if not any(hits):
+                        return False
         v = self.ev(test, path)
         if v[0] == 'const':
             return bool(v[1])
